@@ -405,6 +405,7 @@ def run(tier):
     rule_R7(res, prog)
     rule_R8(res, prog)
     rule_R9(res, prog)
+    rule_R10(res, prog)
     rule_R1e(res, prog)
     return res.finish()
 
@@ -778,4 +779,67 @@ def rule_R9(res, prog):
                      "(RFC 7627 5.3 requires a full handshake)" % (fn.relfile, esc[-1][1], esc[-1][1], [p_[1] for p_ in esc[-6:-1]]),
                      file=fn.relfile, line=esc[-1][1])
     res.instance(rid, "matrixUnlockSessionTicket: every success path stores the ticket's EMS byte into require_extended_master_secret", esc is None, finding=f_)
+    res.floor(rid, 1)
+
+
+def rule_R10(res, prog):
+    """RFC 7627 5.3, the direction R9 does not cover: a ticket sealed WITHOUT the extended master secret offered in a
+    ClientHello that carries the extension must not be resumed.  The ticket may be parsed before or after the EMS
+    extension, so the decision can only be taken once the extension loop of parseClientHelloExtensions is over: no
+    success path of that function may be consistent with the state (resumed, using a ticket, ticket EMS flag
+    [require_extended_master_secret after the unlock] == 0, offered EMS == 1) unless it clears SSL_FLAGS_RESUMED."""
+    from sa import cfgutil as cu
+    import re
+    rid = "C14.R10"
+    res.rule(rid, "ticket resumption: a ticket without EMS is not resumed by a ClientHello that offers EMS (the RESUMED flag is "
+                  "cleared on every success path consistent with that state)")
+    fn = prog.fn("parseClientHelloExtensions")
+    STATE = {"ssl->extFlags.require_extended_master_secret": 0, "ssl->extFlags.extended_master_secret": 1}
+    RESUMED = prog.const("SSL_FLAGS_RESUMED")
+    USING = prog.const("SESS_TICKET_STATE_USING_TICKET")
+
+    def clears_resumed(x):
+        for m in walk(x):
+            if m.get("k") == "bin" and m["op"] == "&=" and (strip(m["l"]) or {}).get("f") == "flags" and \
+                    "SSL_FLAGS_RESUMED" in cu.ftext(m["r"]) or \
+                    (m.get("k") == "bin" and m["op"] == "&=" and (strip(m["l"]) or {}).get("f") == "flags" and
+                     any(q.get("k") == "int" and q.get("v") in (RESUMED, ~RESUMED, (~RESUMED) & 0xffffffff) for q in walk(m["r"]))):
+                return True
+        return False
+
+    def contradicts(txt, tr):
+        m = re.match(r"^\((.*) (==|!=) (-?\d+)\)$", txt)
+        if m:
+            lhs, op, k = m.group(1), m.group(2), int(m.group(3))
+        else:
+            lhs, op, k = txt, "!=", 0
+        if lhs in STATE:
+            holds = (STATE[lhs] == k) if op == "==" else (STATE[lhs] != k)
+            return holds != tr
+        # the other conjuncts of the state: resumed, a session id structure exists, it is using the ticket
+        if not tr and (txt in ("(ssl->flags & %d)" % RESUMED, "ssl->sid") or
+                       txt.endswith("sessionTicketState == %d)" % USING)):
+            return True
+        return False
+
+    def not_in_state(b, k):
+        t = b.get("term")
+        if t is None or "c" not in t or len(b["succ"]) != 2:
+            return False
+        return any(contradicts(txt, tr) for (txt, tr, nd) in cu._cond_atoms(t["c"], k == 0))
+    n_clear = len(cu.find_sites(fn, clears_resumed))
+    gf = cu.guard_facts(fn)
+    err = set(id(x) for b in fn.blocks for (i, ln, x) in cu.block_exprs(b) if x.get("k") == "ret" and cu.ret_is_error(gf, b["id"], x))
+    esc = cu.escapes(fn, (fn.entry, None), clears_resumed, exempt_edge=not_in_state,
+                     is_target=lambda x: cu.success_ret(x) and id(x) not in err)
+    f_ = None
+    if esc is not None:
+        f_ = Finding(PROP, rid, fn.name, "ticket without EMS resumed for a ClientHello with EMS",
+                     "%s:%s parseClientHelloExtensions(): the success return at line %s is reached (via lines %s) on a path consistent with "
+                     "`resumed by ticket, ticket sealed without extended master secret, ClientHello offers extended_master_secret` "
+                     "without clearing SSL_FLAGS_RESUMED: the abbreviated handshake then runs on the non-EMS master secret while "
+                     "the ServerHello echoes the extension (RFC 7627 5.3: the server MUST NOT perform the abbreviated handshake)" % (
+                         fn.relfile, esc[-1][1], esc[-1][1], [p_[1] for p_ in esc[-6:-1]]), file=fn.relfile, line=esc[-1][1])
+    res.instance(rid, "parseClientHelloExtensions: every success path consistent with (ticket EMS = 0, offered EMS = 1) clears "
+                      "SSL_FLAGS_RESUMED (%d clearing sites)" % n_clear, esc is None, finding=f_)
     res.floor(rid, 1)
